@@ -473,6 +473,10 @@ func (pf *ParserFacts) guardValue(s SlotStore, v ssa.Value, req string) (bool, s
 	if ok, why := pf.postGuardedBy(s, acc...); ok {
 		return true, why
 	}
+	// the value is what a helper of the parser returned: the helper tests it before it returns it
+	if ok, why := pf.returnGuard(v, 0, acc...); ok {
+		return true, why
+	}
 	if ok, why := pf.driverGuard(s, acc...); ok {
 		return true, why
 	}
@@ -2066,4 +2070,53 @@ func rootInterfaceValue(v ssa.Value) ssa.Value {
 		}
 	}
 	return v
+}
+
+// returnGuard: v is a result of a call of a parser function; on every successful return of
+// that function the returned value (when it is not nil) has passed one of the accepted tests
+// inside the function.
+func (pf *ParserFacts) returnGuard(v ssa.Value, depth int, accepted ...atomKind) (bool, string) {
+	if depth > 2 {
+		return false, ""
+	}
+	var call *ssa.Call
+	idx := 0
+	switch x := v.(type) {
+	case *ssa.Extract:
+		call, _ = x.Tuple.(*ssa.Call)
+		idx = x.Index
+	case *ssa.Call:
+		call = x
+	}
+	if call == nil {
+		return false, ""
+	}
+	callee := call.Call.StaticCallee()
+	if callee == nil || callee.Blocks == nil || pkgOf(callee) != pf.W.Pkgs["parser"].Types {
+		return false, ""
+	}
+	n := 0
+	for _, b := range callee.Blocks {
+		ret, ok := b.Instrs[len(b.Instrs)-1].(*ssa.Return)
+		if !ok || idx >= len(ret.Results) || isErrorReturn(ret) {
+			continue
+		}
+		rv := ret.Results[idx]
+		if k, ok := rv.(*ssa.Const); ok && k.IsNil() {
+			continue // no value at all
+		}
+		n++
+		ps := SlotStore{Fn: callee, Node: "return", Field: callee.Name(), Val: rv, Instr: ret}
+		if ok, _ := pf.guardedBy(ps, rv, accepted...); ok {
+			continue
+		}
+		if ok, _ := pf.returnGuard(rv, depth+1, accepted...); ok {
+			continue
+		}
+		return false, ""
+	}
+	if n == 0 {
+		return false, ""
+	}
+	return true, "tested inside " + FuncName(callee) + " before it is returned"
 }
